@@ -13,6 +13,7 @@ class BitsetProgram(Program):
     def __init__(self, text):
         Program.__init__(self, text, 'bitset')
         install_models(self)
+        self.merge_diamonds = True          # `if bit { push('1') } else { push('0') }`: one statement with an if-then-else constant
         self.merge_pure_closures = True     # per-index closures are pure: merge their branches instead of forking per bit
         for k in ('String::push', 'String::new'):
             self.models.pop(k, None)       # the fmt model's versions (chars stored as bytes) are used instead
